@@ -73,6 +73,7 @@ func (s *Scanner) Next() (*Lexeme, *jerr.JApiError) {
 			}
 		}
 
+		verifOnStep(s)
 		je := s.step(s, c) // evaluate byte
 		if je != nil {
 			return nil, je
